@@ -230,10 +230,9 @@ impl StringDecoder for Unreal2StringDecoder {
 
         // If UCS2 the first byte is the masked length of the string
         let result = if ucs2 {
-            let string_data = &data[start .. start + length];
-            if string_data.len() != length {
-                return Err(PacketBad.context("Not enough data in buffer to read string"));
-            }
+            let string_data = data
+                .get(start .. start + length)
+                .ok_or_else(|| PacketBad.context("Not enough data in buffer to read string"))?;
 
             // When node decodes UCS2 it uses the UFT16LE encoding.
             // https://github.com/nodejs/node/blob/2aaa21f9f684484edb54be30589c4af0b923cdef/lib/buffer.js#L637-L645
@@ -245,21 +244,22 @@ impl StringDecoder for Unreal2StringDecoder {
 
             result
         } else {
-            // Else the string is null-delimited latin1
+            // Else the string is latin1, the length byte counts its bytes including the
+            // null terminator (the length byte itself is not part of the string)
+            start = 1;
 
-            // TODO: Replace this with delimiter finder helper
-            let position = data
-            // Create an iterator over the data.
+            let string_data = data
+                .get(start .. start + length)
+                .ok_or_else(|| PacketBad.context("Not enough data in buffer to read string"))?;
+
+            // Only decode up to the delimiter
+            let position = string_data
                 .iter()
-                // Find the position of the delimiter
                 .position(|&b| b == delimiter.as_ref()[0])
-                // If the delimiter is not found, use the whole data slice.
-                .unwrap_or(data.len());
-
-            length = position + 1;
+                .unwrap_or(string_data.len());
 
             // Decode as latin1
-            let (result, _, invalid_sequences) = WINDOWS_1252.decode(&data[0 .. position]);
+            let (result, _, invalid_sequences) = WINDOWS_1252.decode(&string_data[.. position]);
 
             if invalid_sequences {
                 return Err(PacketBad.context("latin1 string contained invalid character(s)"));
